@@ -21,6 +21,8 @@ ENTRY_PREFIXES = (
 IMD = "in-memory decode of bytes already read (io::Error is only the BinarySerializable signature), search side — no storage operation"
 # (function, callee, fate) -> (count, reason); every entry was read.
 FATE_TABLE = {
+    ("<tantivy::indexer::index_writer::IndexWriter<D> as core::ops::drop::Drop>::drop", "JoinHandle::join (the joined thread's own Result)", "discarded"):
+        (1, "Drop cannot report: the workers are joined to let them finish; a writer dropped without commit discards its uncommitted work anyway"),
     # --- fate 'err-arm-continues': the Result is matched, but the Err arm reaches a non-error exit
     ("tantivy::directory::managed_directory::ManagedDirectory::garbage_collect", "<tantivy::directory::managed_directory::ManagedDirectory as tantivy::directory::directory::Directory>::delete", "err-arm-continues"):
         (1, "GC: FileDoesNotExist counts as deleted, an IoError keeps the file managed and it is retried by the next GC (logged)"),
@@ -109,6 +111,7 @@ def run(rep, prog, tier):
     r4(rep, prog)
     r5(rep, prog)
     r6(rep, prog)
+    r7(rep, prog)
 
 
 def r1(rep, prog):
@@ -148,6 +151,17 @@ def r1(rep, prog):
             seen[k] += 1
             sites[k].append(site(body, b))
             fc["err-arm-continues"] += 1
+    # the Result a joined thread returns (the Ok payload of JoinHandle::join) is a storage Result too
+    for fid_ in sorted(scope):
+        jb_ = prog.body(fid_)
+        if jb_ is None:
+            continue
+        for b, fates in errfate.join_inner_fates(prog, jb_):
+            fc["thread-result"] += 1
+            for f in sorted(x for x in fates if x not in ("checked", "returned", "passed")):
+                k = (jb_.id, "JoinHandle::join (the joined thread's own Result)", f)
+                seen[k] += 1
+                sites[k].append(site(jb_, b))
     for k, n in sorted(seen.items()):
         fid, callee, fate = k
         key = "%s: %s of %s" % (short(fid), fate, short(callee))
@@ -307,6 +321,49 @@ def r4(rep, prog):
     rule_result_checked(rep, prog, R, eid, {I + "index_writer::advance_deletes"}, "advance_deletes (reconciliation)")
     rule_result_checked(rep, prog, R, eid, {I + "segment_manager::SegmentManager::end_merge"}, "SegmentManager::end_merge")
     rule_result_checked(rep, prog, R, eid, {SU + "SegmentUpdater::save_metas"}, "SegmentUpdater::save_metas")
+
+
+def r7(rep, prog):
+    """a writer that lost a worker is not brought back to life by prepare_commit"""
+    R = "C11-R7"
+    rep.rule(R, "prepare_commit cannot resurrect a crippled writer: recreate_document_channel installs a fresh, alive IndexWriterStatus before the workers are joined; so (a) an IndexWriterBomb on that new status is created after it and (b) IndexWriterBomb::defuse is only reached on the Ok path — every error exit after recreate_document_channel (a failed join, a failed worker, a worker that cannot be restarted) leaves the bomb to kill the status; (c) the liveness of the status before the recreation is read and decides an error exit. Otherwise the writer keeps acknowledging documents no worker consumes and a later commit returns Ok without them")
+    fid = IW + "prepare_commit"
+    b = get_body(rep, prog, R, fid)
+    if b is None:
+        return
+    RC = {IW + "recreate_document_channel"}
+    CB = {I + "index_writer_status::IndexWriterStatus::<D>::create_bomb"}
+    DEF = {I + "index_writer_status::IndexWriterBomb::<D>::defuse"}
+    AL = {I + "index_writer_status::IndexWriterStatus::<D>::is_alive"}
+    rc, cb, df, al = calls_to(prog, b, RC), calls_to(prog, b, CB), calls_to(prog, b, DEF), calls_to(prog, b, AL)
+    if not rep.check(len(rc) == 1 and len(cb) >= 1 and len(df) >= 1, R, "prepare_commit arms a bomb on the fresh status", "recreate_document_channel, create_bomb, defuse found",
+                     "prepare_commit installs a fresh alive status (recreate_document_channel) but does not guard it with an IndexWriterBomb (create_bomb: %d, defuse: %d): if a worker failed or cannot be restarted, "
+                     "the writer stays alive with missing workers, acknowledges documents nobody indexes, and a later commit returns Ok without them" % (len(cb), len(df)), site=b.span):
+        return
+    # (a) bomb after the recreation
+    bad = must_precede(b, [Ev(x, "term") for x, _ in rc], [Ev(x, "term") for x, _ in cb])
+    rep.check(not bad, R, "the bomb is created on the new status", "create_bomb after recreate_document_channel", "create_bomb is reachable before recreate_document_channel: it guards the old status", site=site(b, cb[0][0]))
+    # (b) no error exit after defuse, defuse on every Ok path
+    eb = b.error_blocks()
+    after = set()
+    for x, t in df:
+        after |= b.reachable(tuple(b.succ(x)))
+    rep.check(not any(e in after for e in eb), R, "no error exit after defuse", "defuse is the last fallible step", "an error exit of prepare_commit is reachable after the bomb was defused", site=site(b, df[0][0]))
+    rule_must_pass(rep, prog, R, fid, DEF, "IndexWriterBomb::defuse", exits="ok", a_ok=False)
+    # (c) the previous liveness is read before the recreation and guards an error exit
+    before = [x for x, _ in al if not must_precede(b, [Ev(x, "term")], [Ev(rc[0][0], "term")]) or x in b.reachable((0,), blocked=frozenset({rc[0][0]}))]
+    okc = False
+    for x, t in al:
+        if x not in b.reachable((0,), blocked=frozenset({rc[0][0]})):
+            continue
+        d = t.get("dest")
+        from ..rules import dominating_guards
+        for e in eb:
+            for sb, arms, l in dominating_guards(b, e):
+                if any(leaf[0] == "call" and leaf[1].endswith("is_alive") for leaf in provenance(b, l)):
+                    okc = True
+    rep.check(okc, R, "a writer that was already killed stays killed", "is_alive() read before the recreation decides an error exit",
+              "prepare_commit does not look at the liveness of the status it replaces: a writer killed by a failed worker becomes alive again at the next commit", site=b.span)
 
 
 def r5(rep, prog):
